@@ -165,6 +165,53 @@ def random_case(ctx, idx, rng):
     check_model(ctx, name, L, p, d)
 
 
+def large_case(ctx, idx, rng):
+    """Lattice sizes beyond the dense reach (L up to 40): matrix elements between random product states. All five lattice models are sums of
+    translated one- and two-site terms, so the reference element is assembled from the dense one-site (L=1) and two-site (L=2) textbook operators."""
+    name = str(rng.choice(['ising', 'xxz', 'xxz1', 'bose', 'fermi']))
+    d = int(rng.integers(2, 5)) if name == 'bose' else None
+    dd = d if d else {'ising': 2, 'xxz': 2, 'xxz1': 3, 'fermi': 4}[name]
+    L = int(rng.integers(9, 41))
+    p = tuple(float(x) for x in rng.choice([-1, 1], size=3) * rng.uniform(0.2, 2.0, size=3))
+    if rng.random() < 0.3:
+        p = tuple(0.0 if rng.random() < 0.4 else x for x in p)
+        if all_chains_vanish(name, L, p):
+            p = (1.0,) + p[1:]
+    ctx.case(('large', name, f'L{L // 10 * 10}+') + ((f'd{d}',) if d else ()), sample={'model': name, 'L': L, 'params': p, 'd': d}, info={'model': name, 'L': L, 'params': p, 'd': d})
+    detail = {'model': name, 'L': L, 'params': p, 'd': d}
+    H = build(name, L, p, d)
+    inv = refs.mpo_invariant(H)
+    if not ctx.ok('large.block-sparse', inv is None, str(inv), detail):
+        return
+    ctx.ok('large.nsites', H.nsites == L and H.bond_dims[0] == 1 and H.bond_dims[-1] == 1 and int(H.qD[0][0]) == int(H.qD[-1][0]), f'nsites {H.nsites}, bonds {H.bond_dims}', detail)
+    # local terms from the textbook references at L = 1 and L = 2
+    two_only = {'ising': (p[0], 0.0, 0.0), 'xxz': (p[0], p[1], 0.0), 'xxz1': (p[0], p[1], 0.0), 'bose': (p[0], 0.0, 0.0), 'fermi': (p[0], 0.0, 0.0)}[name]
+    one_only = {'ising': (0.0, p[1], p[2]), 'xxz': (0.0, 0.0, p[2]), 'xxz1': (0.0, 0.0, p[2]), 'bose': (0.0, p[1], p[2]), 'fermi': (0.0, p[1], p[2])}[name]
+    h2 = reference(name, 2, two_only, d)
+    h1 = reference(name, 1, one_only, d)
+    worst = 0.0
+    scale = 0.0
+    for _ in range(3):
+        phi = [(rng.normal(size=dd) + 1j * rng.normal(size=dd)) for _ in range(L)]
+        chi = [phi[i] + 0.4 * (rng.normal(size=dd) + 1j * rng.normal(size=dd)) for i in range(L)]
+        ov = np.array([np.vdot(phi[i], chi[i]) for i in range(L)])
+        pre = np.concatenate([[1.0], np.cumprod(ov)])                  # pre[i] = prod_{k<i}
+        suf = np.concatenate([np.cumprod(ov[::-1])[::-1], [1.0]])      # suf[i] = prod_{k>=i}
+        want = 0.0
+        for i in range(L):
+            want += pre[i] * np.vdot(phi[i], h1 @ chi[i]) * suf[i + 1]
+        for i in range(L - 1):
+            want += pre[i] * np.vdot(np.kron(phi[i], phi[i + 1]), h2 @ np.kron(chi[i], chi[i + 1])) * suf[i + 2]
+        got = refs.mpo_element([x.reshape(dd, 1, 1) for x in phi], H.A, [x.reshape(dd, 1, 1) for x in chi])
+        sc = float(np.prod(np.abs(ov))) * L * max(np.abs(h2).max(), np.abs(h1).max(), 1e-300) * max(np.linalg.norm(phi[0]) ** 2, 1.0)
+        scale = float(np.prod([np.linalg.norm(phi[i]) * np.linalg.norm(chi[i]) for i in range(L)])) * L * max(np.abs(h2).max(), np.abs(h1).max())
+        ctx.close('large.product-state-matrix-elements', abs(got - want), 1e-10 * scale, f'<phi|H|chi> for product states differs from the sum of local terms at L={L}', detail)
+    # Hermiticity through probes: <phi|H|chi> = conj(<chi|H|phi>)
+    a = refs.mpo_element([x.reshape(dd, 1, 1) for x in phi], H.A, [x.reshape(dd, 1, 1) for x in chi])
+    b = refs.mpo_element([x.reshape(dd, 1, 1) for x in chi], H.A, [x.reshape(dd, 1, 1) for x in phi])
+    ctx.close('large.hermitian[probes]', abs(a - np.conj(b)), 1e-10 * scale, 'not Hermitian', detail)
+
+
 def linear_fermionic_case(ctx, idx, rng):
     L = int(rng.integers(1, 8))
     kind = str(rng.choice(['complex', 'real', 'unit', 'sparse']))
@@ -225,7 +272,7 @@ def linear_fermionic_case(ctx, idx, rng):
 
 SPEC = {
     'id': 'C06',
-    'rule': ('grid: Ising/XXZ L 1..8, spin-1 XXZ L 1..5, Bose-Hubbard d 1..4 (d^L <= 1024), Fermi-Hubbard L 1..4, every parameter triple from '
+    'rule': ('large: L 9..40 for all five lattice models through product-state matrix elements assembled from the textbook one- and two-site operators; grid: Ising/XXZ L 1..8, spin-1 XXZ L 1..5, Bose-Hubbard d 1..4 (d^L <= 1024), Fermi-Hubbard L 1..4, every parameter triple from '
              '{0, 1, -1, generic}^3 except those whose documented operator is identically zero (decides the chain lists produced by vanishing couplings '
              'and by chains shorter than the longest local term); random Gaussian parameters (scales 0.01..10, thorough: dense dimension up to 1024); '
              'linear fermionic operators: both types (all spellings), complex / real / unit / sparse coefficient vectors, L 1..7, plus the '
@@ -236,6 +283,7 @@ SPEC = {
     'workloads': [
         Workload('grid', grid_case, quick=8 * 8 * 64, thorough=8 * 8 * 64 * 12),
         Workload('random', random_case, quick=150, thorough=40000),
+        Workload('large', large_case, quick=120, thorough=6000),
         Workload('linear-fermionic', linear_fermionic_case, quick=200, thorough=32000),
     ],
     'shards': {'quick': 4, 'thorough': 16},
